@@ -87,8 +87,64 @@ func c08Case(g *Gen, code string, targets []*big.Int) {
 	g.Count(code)
 }
 
+// c08History: one algorithm object is used the way a long-lived caller uses it — a result is extended
+// and passed back in, the caller's target objects are reused for other values, targets congruent
+// modulo 2^64 are requested — and then the original request is repeated. The answer must be the one a
+// fresh object gives (no state may survive a call; no returned slice may alias internal storage).
+func c08History(g *Gen, code string, targets []*big.Int) {
+	run := func(a alg.SequenceAlgorithm, ts []*big.Int) (addchain.Chain, string) {
+		var c addchain.Chain
+		var err error
+		if p := safe(func() { c, err = a.FindSequence(ts) }); p != "" {
+			return nil, "panic"
+		}
+		if err != nil {
+			return nil, "err"
+		}
+		return c, "ok"
+	}
+	obj := seqAlg(code)
+	first, st1 := run(obj, cloneInts(targets))
+	firstCopy := cloneInts(first)
+	if st1 == "ok" && len(first) > 0 {
+		// extend the returned chain by a small and by a large new value and ask again
+		ext := append(first, big.NewInt(3))
+		run(obj, ext)
+		ext2 := append(first, new(big.Int).Add(first[len(first)-1], big.NewInt(1)))
+		run(obj, ext2)
+	}
+	// reuse the caller's own integers for another request
+	mine := cloneInts(targets)
+	run(obj, mine)
+	for _, x := range mine {
+		x.Add(x, big.NewInt(7))
+	}
+	run(obj, mine)
+	// a request that agrees with the original in the low machine word
+	if strings.HasPrefix(code, "cf.") && !(code == "cf.total" || code == "cf.dyadic" || code == "cf.fermat") {
+		hi := cloneInts(targets)
+		hi[len(hi)-1] = new(big.Int).Add(hi[len(hi)-1], new(big.Int).Lsh(big.NewInt(1), 64))
+		run(obj, hi)
+	}
+	again, st2 := run(obj, cloneInts(targets))
+	fresh, st3 := run(seqAlg(code), cloneInts(targets))
+	g.Count("history")
+	if st2 != st3 || !equalInts(again, fresh) || st1 != st3 || !equalInts(firstCopy, fresh) {
+		g.Notes = append(g.Notes, "VIOLATION: "+code+".FindSequence("+encInts(targets)+") after earlier calls on the same object returns "+
+			st2+" "+encInts(again)+", first call "+st1+" "+encInts(firstCopy)+", a fresh object "+st3+" "+encInts(fresh))
+	}
+}
+
 func genC08(g *Gen) {
 	all := append(append([]string{}, c08Log...), c08Small...)
+	for _, code := range all {
+		for _, ts := range [][]int64{{5}, {1}, {2}, {3, 17}, {1, 5}, {5, 9}, {30, 3, 18}, {7, 3}, {13, 4, 13}, {11}, {23, 11}} {
+			c08History(g, code, ints(ts...))
+		}
+		if g.notesViolation() {
+			return
+		}
+	}
 	// every list of <= 3 targets over 1..9 (repeats, unsorted)
 	maxv := int64(g.pick(9, 12))
 	maxl := g.pick(3, 4)
